@@ -108,6 +108,26 @@ theorem unmarshal_reply_is_own (fixed a : Bool) (s : St) (h : Reach (sys fixed a
   subst hne
   exact ⟨inv, hinv, hnop, hnbad, hpub⟩
 
+/-- **no reply reaches the caller more often than it was produced**: the replies made from notifications that a caller
+    holds or has read (timeout replies aside) never outnumber the notifications with its *own* operation id that its
+    subscription received – a notification of another request on the shared topic produces nothing for this caller, not
+    even a repetition of an earlier own reply.  (Each accepted notification reaches a subscription once – C04 – so this
+    is "at most once per published reply".) -/
+theorem replies_bounded_by_own_notifications (fixed a : Bool) (s : St) (h : Reach (sys fixed a) s) (i : Nat)
+    (l : Listener) (hl : s.ls[i]? = some l) :
+    made (l.buf ++ l.got) ≤ l.ownSeen ∧ l.ownSeen + ownIn l.op l.inbox = l.ownDelivered ∧
+      made (l.buf ++ l.got) ≤ l.ownDelivered := by
+  have hok := ((reach_sok fixed a s h).lok i l hl).1
+  have h1 := hok.own
+  have h2 := hok.ownd
+  simp only [made_append]
+  refine ⟨by omega, h2, by omega⟩
+
+/-! non-vacuity: in `demoShared` listener 0 consumed two notifications, one of them its own: one reply, not two -/
+example : ∃ s l0, exec (sys true false) (init false) demoShared = some s ∧ s.ls[0]? = some l0 ∧
+    l0.acked = 2 ∧ l0.ownDelivered = 1 ∧ made (l0.buf ++ l0.got) = 1 :=
+  ⟨_, _, rfl, rfl, by decide, by decide, by decide⟩
+
 /-- the listener acks every notification it consumes – its own, foreign ones, and those it cannot unmarshal -/
 theorem acks_every_notification (fixed a : Bool) (s : St) (h : Reach (sys fixed a) s) (i : Nat) (l : Listener)
     (hl : s.ls[i]? = some l) : l.acked + l.inbox.length = l.delivered :=
